@@ -204,6 +204,26 @@ fn one_shot(action: MAction, on: &[&str], limit_loop: bool) -> MMachine {
     }
 }
 
+/// two states with the same action, every trigger leads to the other one: acts on every trigger
+fn ping_pong(action: MAction, on: &[&str], allowed_pad: i64) -> MMachine {
+    let mut t0 = std::collections::BTreeMap::new();
+    let mut t1 = std::collections::BTreeMap::new();
+    for e in on {
+        t0.insert(e.to_string(), vec![(1i64, 16u32)]);
+        t1.insert(e.to_string(), vec![(0i64, 16u32)]);
+    }
+    MMachine {
+        allowedPad: allowed_pad,
+        padFrac: (1, 100),
+        allowedBlock: -1,
+        blockFrac: (0, 1),
+        states: vec![
+            MState { action: action.clone(), ca: MCtr::none(), cb: MCtr::none(), trans: t0 },
+            MState { action, ca: MCtr::none(), cb: MCtr::none(), trans: t1 },
+        ],
+    }
+}
+
 /// templates that make blocking periods overlap and padding meet them
 fn blocking_mix(r: &mut GRng) -> Vec<MMachine> {
     let mut v = Vec::new();
@@ -510,11 +530,14 @@ fn mk_timer(replace: bool, duration: i64) -> MAction {
 /// machines and a padding machine, and of two or three timer machines, on
 /// short traces, on either side, with and without continuing after the last
 /// normal packet
-fn directed(seed: u64) -> Vec<Scenario> {
+/// returns the scenarios and the index ranges of the families that are always run completely
+/// (small families whose hits are few: sub-sampling them would make detection a matter of luck)
+fn directed(seed: u64) -> (Vec<Scenario>, Vec<std::ops::Range<usize>>) {
     let mut v = Vec::new();
+    let mut always: Vec<std::ops::Range<usize>> = Vec::new();
     let traces: [&[i64]; 4] = [&[0], &[0, 20], &[0, 20, 40], &[0, 0, 500]];
     let bools = [false, true];
-    let mut push = |machines: Vec<MMachine>, tr: &[i64], client: bool, cont: bool, delay: u64| {
+    let mut push = |machines: Vec<MMachine>, tr: &[i64], client: bool, cont: bool, delay: u64| -> usize {
         let id = v.len() as u64;
         v.push(Scenario {
             unit: 1,
@@ -529,6 +552,7 @@ fn directed(seed: u64) -> Vec<Scenario> {
             max_it: 300,
             mtl: 7,
         });
+        id as usize
     };
     for bb in bools {
         for br in bools {
@@ -618,6 +642,32 @@ fn directed(seed: u64) -> Vec<Scenario> {
             }
         }
     }
+    // repeated padding against one blocking period: a blocker and a machine that pads on every
+    // packet, padding and blocking event (a few paddings in all), so that several paddings with
+    // each flag combination meet the same buffered packets
+    let (mut lo, mut hi) = (usize::MAX, 0usize);
+    for bb in bools {
+        for pb in bools {
+            for pr in bools {
+                for pt in [0i64, 1, 3, 5, 9] {
+                    for bd in [50i64, 300] {
+                        for (ti, tr) in [&[0i64, 2, 4][..], &[0, 3, 6, 9], &[0, 1, 2, 3], &[0, 20, 40], &[0, 0, 30, 31]].iter().enumerate() {
+                            for client in bools {
+                                let ms = vec![
+                                    one_shot(mk_block(bb, false, 0, bd), &["NormalSent"], false),
+                                    ping_pong(mk_pad(pb, pr, pt), &["NormalSent", "PaddingSent", "BlockingBegin"], 3 + ti as i64),
+                                ];
+                                let idx = push(ms, tr, client, ti % 2 == 0, 10);
+                                lo = lo.min(idx);
+                                hi = hi.max(idx + 1);
+                            }
+                        }
+                    }
+                }
+            }
+        }
+    }
+    always.push(lo..hi);
     // timer machines whose expiries coincide, restart, or are cancelled
     for r1 in bools {
         for r2 in bools {
@@ -675,7 +725,7 @@ fn directed(seed: u64) -> Vec<Scenario> {
             }
         }
     }
-    v
+    (v, always)
 }
 
 /// a machine that answers the j-th event delivered to it with acts[j] (behaviours generated by TLC
@@ -843,10 +893,11 @@ fn main() {
     }
     let mut n_directed = 0u64;
     if stride > 0 {
-        for (i, sc) in directed(seed).into_iter().enumerate() {
+        let (dir, always) = directed(seed);
+        for (i, sc) in dir.into_iter().enumerate() {
             // hash-based sub-sampling (a plain stride would align with the innermost loops)
             let h = (i as u64).wrapping_mul(0x9E37_79B9_7F4A_7C15).wrapping_add(seed.wrapping_mul(0x51_7CC1)) >> 33;
-            if h % stride as u64 == 0 {
+            if h % stride as u64 == 0 || always.iter().any(|r| r.contains(&i)) {
                 list.push((sc, true));
                 n_directed += 1;
             }
